@@ -307,6 +307,27 @@ def check_case(ctx, case):
         if len(res) == 2 and all(v[0].shape == E.shape for v in res.values()):
             if not numpy.array_equal(res["explicit"][0], res["bound"][0]) or not numpy.array_equal(res["explicit"][1], res["bound"][1]):
                 ctx.violation("tol_region_bound_differs_from_explicit_bins", {"tol": tol, "explicit_mc": res["explicit"][1].tolist(), "bound_mc": res["bound"][1].tolist()})
+    # ---- one more event exactly on the outer east / north boundary of a decimal lattice (the decimal coordinate lon0 + (i0+nx)*dh):
+    # that boundary opens no cell, the event is outside and gridding must reject it - on every lattice, also where the float sum
+    # last origin + dh lies an ulp above the decimal
+    if case["region"]["kind"] == "cart" and not outside and not below and M.n >= 1:
+        L = M.L
+        k0 = sorted(L.active.values())[0] if M.use_flags and L.active else 0
+        ci, cj = L.cells[k0]
+        mid_lon, mid_lat = L._coord(L.lon0, ci) + L.fdh / 2, L._coord(L.lat0, cj) + L.fdh / 2
+        for tag, (lon_, lat_) in (("east", (L._coord(L.lon0, L.i0 + L.nx), mid_lat)), ("north", (mid_lon, L._coord(L.lat0, L.j0 + L.ny)))):
+            if M.cell_of(lon_, lat_) != -1:
+                continue
+            ev_edge = list(events) + [("edge", 10 ** 7, lat_, lon_, 5.0, edges[0] + (edges[1] - edges[0]) / 2 if len(edges) > 1 else edges[0] + 0.01)]
+            for name in ("spatial_counts", "spatial_magnitude_counts"):
+                c2 = CSEPCatalog(data=ev_edge, region=region)
+                o = call(lambda: getattr(c2, name)(**(kw if name == "spatial_magnitude_counts" else {})))
+                ctx.count("outer_edge_events")
+                if o.ok:
+                    ctx.violation("event_on_outer_%s_edge_counted:%s" % (tag, name), {"pt": [lon_, lat_], "sum": float(numpy.sum(o.value)), "n_inside": n},
+                                  dict(case, events=[]))
+                elif not isinstance(o.exc, ValueError):
+                    ctx.unexpected(o, name + ":outer_edge_event")
     # ---- the same events in a catalog whose structured array stores coordinates and magnitudes in single precision (a legitimate
     # ndarray catalog): float32(5.1) is not 5.1, so no reference gridding here - only the identities the property states between the
     # library's own answers: total, marginals, and bin count == events kept by the equivalent magnitude-range filter
